@@ -185,7 +185,14 @@ func (o *objectGoMapReflect) defineOwnPropertyStr(name unistring.String, descr P
 		return false
 	}
 
-	return o._put(o.strToKey(name.String(), throw), descr.Value, throw)
+	val := descr.Value
+	if val == nil {
+		if o.hasOwnPropertyStr(name) {
+			return true
+		}
+		val = _undefined
+	}
+	return o._put(o.strToKey(name.String(), throw), val, throw)
 }
 
 func (o *objectGoMapReflect) defineOwnPropertyIdx(idx valueInt, descr PropertyDescriptor, throw bool) bool {
@@ -193,7 +200,14 @@ func (o *objectGoMapReflect) defineOwnPropertyIdx(idx valueInt, descr PropertyDe
 		return false
 	}
 
-	return o._put(o.toKey(idx, throw), descr.Value, throw)
+	val := descr.Value
+	if val == nil {
+		if o.hasOwnPropertyIdx(idx) {
+			return true
+		}
+		val = _undefined
+	}
+	return o._put(o.toKey(idx, throw), val, throw)
 }
 
 func (o *objectGoMapReflect) hasOwnPropertyStr(name unistring.String) bool {
